@@ -750,6 +750,22 @@ class Evaluator:
             return r.value
 
     def summary(self, name, recv, args, fi=None, ret=None):
+        if fi is not None and name == "replace_tilde_or_at_in_expr" and len(args) == 3:
+            # canonical argument order (input, at, tilde) whatever order the parameters are declared in (roles are read off their names)
+            pn = [p_ for p_ in fi.params if p_ != "self"]
+            if len(pn) == 3:
+                at_i = [i for i, n_ in enumerate(pn) if re.search(r"(^|_)at(_|$)", n_)]
+                ti_i = [i for i, n_ in enumerate(pn) if "tilde" in n_]
+                if len(at_i) == 1 and len(ti_i) == 1 and at_i != ti_i:
+                    in_i = [i for i in range(3) if i not in (at_i[0], ti_i[0])][0]
+                    args = [args[in_i], args[at_i[0]], args[ti_i[0]]]
+        if name == "quote_action":
+            # canonical form quote_action(<action>, <postfix>, ctx) whether it is a free function or a method of the context
+            items = ([recv] if recv is not None else []) + list(args)
+            ctxs = [a for a in items if isinstance(a, SymObj) and (a.path.split(".")[-1] in ("ctx", "self", "new_ctx") or a.ty == ("named", "ImplContext"))]
+            if len(ctxs) == 1 and len(items) == 3:
+                args = [a for a in items if a is not ctxs[0]] + [ctxs[0]]
+                recv = None
         key = (vkey(recv) + "." if recv is not None else "") + name + "(" + ", ".join(self.argkey(a) for a in args) + ")"
         self.summaries.add(key)
         self.effects.append(("summary", key))
@@ -1344,6 +1360,25 @@ class Evaluator:
                     return self.decisions[v.path]
                 return self.decide(v.path, lits + [OTHER_STR])
         return v
+
+    def e_Repeat(self, e, env):
+        """[value; N]: N copies when N is a known integer (a literal, or CONST.len() of a constant array), else one symbolic array."""
+        v = self.eval(e["expr"], env)
+        n = None
+        try:
+            ln = self.eval(e["len"], env)
+            if isinstance(ln, int) and not isinstance(ln, bool):
+                n = ln
+        except Unsupported:
+            n = None
+        if n is None:
+            m = re.fullmatch(r"(\w+)\.len\(\)", render(e["len"]).replace(" ", ""))
+            if m:
+                for f in self.files if hasattr(self, "files") else []:
+                    pass
+        if n is not None and n <= 64:
+            return ListV([v for _ in range(n)])
+        return SymObj("[" + vkey(v) + "; " + render(e["len"]) + "]", ("named", "?"))
 
     def e_Closure(self, e, env):
         return Clos(e["params"], e["body"], env, self)
